@@ -6,8 +6,7 @@
 
    Differences from the memory queue that are part of this model: `len` and `current` are
    plain integers that are not re-validated against the list (they can disagree with it and
-   `current` can go negative); Remove goes through `readCache`; a fresh object (broker restart)
-   has len = 0 until Init; pipelined commands are executed even when the method panics
+   `current` can go negative); Remove goes through `readCache`; pipelined commands are executed even when the method panics
    (redigo flushes pending commands when the connection is returned to the pool). *)
 From Coq Require Import List NArith ZArith Bool Arith.
 Import ListNotations.
@@ -69,35 +68,38 @@ Definition rq_close (s : rstore) (q : rq) : rqres :=
                rq_cache := rq_cache q; rq_key := rq_key q |};
      r_out := RUnit; r_cmds := [] |}.
 
-(* the loop of Add over LRANGE 0 len.  State: index, the QoS0 candidate, the front element.
-   Result: how the loop ended. *)
+(* the loop of Add over LRANGE 0 len.  An entry is in flight iff it has a packet id (this
+   also holds for the entries that await redelivery after Init, which are not in front of the
+   read cursor, and for PUBREL entries).  State: index, the QoS0 candidate, the first queued
+   element.  Result: how the loop ended. *)
 Inductive addscan :=
-| ASReturn (victim : elem) (r : dropreason)          (* return inside the loop *)
-| ASPanic (cand : option elem)                       (* type assertion on a PUBREL entry *)
+| ASReturn (victim : elem) (r : dropreason) (back : bool)   (* return inside the loop; back: the victim is in front of the cursor *)
+| ASPanic (cand : option elem)                       (* type assertion on a PUBREL entry without packet id *)
 | ASEnd (cand : option elem) (front : option elem).
 
 Fixpoint rq_add_scan (now : N) (cur : Z) (l : list elem) (i : Z) (cand front : option elem) : addscan :=
   match l with
   | [] => ASEnd cand front
   | e :: r =>
-      if (i <? cur)%Z then
-        if expired now e then ASReturn e DExpiredInflight
+      if negb (e_id e =? 0) then
+        if expired now e then ASReturn e DExpiredInflight (i <? cur)%Z
         else rq_add_scan now cur r (i + 1)%Z cand front
       else
-        let front' := if (i =? cur)%Z then Some e else front in
+        let front' := match front with None => Some e | Some _ => front end in
         match e_body e with
         | QRel _ => ASPanic cand
         | QPub m =>
-            if (m_pid m =? 0) && expired now e then ASReturn e DExpired
-            else if (m_pid m =? 0) && (m_qos m =? 0) && (match cand with None => true | Some _ => false end)
+            if expired now e then ASReturn e DExpired false
+            else if (m_qos m =? 0) && (match cand with None => true | Some _ => false end)
                  then rq_add_scan now cur r (i + 1)%Z (Some e) front'
                  else rq_add_scan now cur r (i + 1)%Z cand front'
         end
   end.
 
-(* the deferred part of Add: drop bookkeeping, LREM of the victim, RPUSH of the newcomer *)
-Definition rq_add_finish (s : rstore) (q : rq) (e : elem) (victim : option elem) (r : dropreason) (panic : bool) : rqres :=
-  let cur' := match r with DExpiredInflight => (rq_cur q - 1)%Z | _ => rq_cur q end in
+(* the deferred part of Add: drop bookkeeping, LREM of the victim, RPUSH of the newcomer.
+   The read cursor only moves when the dropped in-flight entry is in front of it *)
+Definition rq_add_finish (s : rstore) (q : rq) (e : elem) (victim : option elem) (r : dropreason) (back panic : bool) : rqres :=
+  let cur' := if back then (rq_cur q - 1)%Z else rq_cur q in
   let pre := match r with DExpiredInflight => [EvInflight (-1)] | _ => [] end in
   match victim with
   | None =>
@@ -114,19 +116,19 @@ Definition rq_add (now : N) (e : elem) (s : rstore) (q : rq) : rqres :=
   if (rq_max q <=? rq_len q)%Z then
     let l := elems_of (lrange (rq_key q) 0 (rq_len q) s) in
     match rq_add_scan now (rq_cur q) l 0 None None with
-    | ASReturn d r => rq_add_finish s q e (Some d) r false
-    | ASPanic cand => rq_add_finish s q e cand DFull true
+    | ASReturn d r back => rq_add_finish s q e (Some d) r back false
+    | ASPanic cand => rq_add_finish s q e cand DFull false true
     | ASEnd cand front =>
-        if rq_drained q && (rq_len q <=? rq_cur q)%Z then rq_add_finish s q e cand DFull false
+        if rq_drained q && (rq_len q <=? rq_cur q)%Z then rq_add_finish s q e cand DFull false false
         else
           match cand with
-          | Some d => rq_add_finish s q e (Some d) DFull false
+          | Some d => rq_add_finish s q e (Some d) DFull false false
           | None =>
               match e_body e with
-              | QRel _ => rq_add_finish s q e None DFull true
+              | QRel _ => rq_add_finish s q e None DFull false true
               | QPub m =>
-                  if m_qos m =? 0 then rq_add_finish s q e None DFull false
-                  else rq_add_finish s q e front DFull false
+                  if m_qos m =? 0 then rq_add_finish s q e None DFull false false
+                  else rq_add_finish s q e front DFull false false
               end
           end
     end
@@ -257,10 +259,11 @@ Definition rq_remove (pid : N) (s : rstore) (q : rq) : rqres :=
       end
   end.
 
-(* a fresh object on the same store: what server.init creates for a stored session *)
+(* a fresh object on the same store: what server.init creates for a stored session (New reads
+   the length of the list) *)
 Definition rq_restart (s : rstore) (q : rq) : rqres :=
   {| r_store := s;
-     r_q := {| rq_len := 0; rq_cur := 0; rq_drained := false; rq_closed := false;
+     r_q := {| rq_len := llen (rq_key q) s; rq_cur := 0; rq_drained := false; rq_closed := false;
                rq_max := rq_max q; rq_limit := 0; rq_v5 := false; rq_ifexp := rq_ifexp q;
                rq_cache := None; rq_key := rq_key q |};
      r_out := RUnit; r_cmds := [] |}.
